@@ -942,11 +942,13 @@ def op_unknown_type(tree, facts, rng):
     partial = {}
     for o in containers(tree):
         f = o['file']
+        ifvars = {c['var'] for _m, _ctx, _ck, chain in if_sites(o) for c in chain}
         for m, ctx in walk(o['members']):
             if m['m'] != 'def' or model.is_builtin(m['ty']):
                 continue
             arr = 'array' if m['array'] is not None else 'plain'
-            out.append(mk('unknown-type', 'fresh-name', o, facts.site(o, ctx_name(ctx), arr),
+            role = '@if-variable' if m['name'] in ifvars else ''    # the type of an if-variable is looked up by more passes than a plain member's
+            out.append(mk('unknown-type', 'fresh-name' + role, o, facts.site(o, ctx_name(ctx), arr),
                           [rep_tok(f, m['ty_tok'], 'VerifUnknownType')], f'type of member {m["name"]}: {m["ty"]} -> VerifUnknownType'))
             t = member_target(tree, o, m)
             if t is not None and t['kind'] in ('enum', 'flag') and m['upcast'] is None and m['value'] is None:
@@ -954,7 +956,7 @@ def op_unknown_type(tree, facts, rng):
                 for _ in range(6):
                     u = rng.choice(by_fam[o['fam']])
                     if u['name'] != m['ty'] and all(tree.resolve(u['name'], o['fam'], vs) is None for vs in o['vsets']):
-                        out.append(mk('unknown-type', 'other-version', o, facts.site(o, ctx_name(ctx), arr),
+                        out.append(mk('unknown-type', 'other-version' + role, o, facts.site(o, ctx_name(ctx), arr),
                                       [rep_tok(f, m['ty_tok'], u['name'])],
                                       f'type of member {m["name"]}: {m["ty"]} -> {u["name"]} (exists only for other versions)'))
                         break
@@ -969,7 +971,7 @@ def op_unknown_type(tree, facts, rng):
                     pc = [u for u in pc if u['name'] != m['ty']]
                     if pc:
                         u = rng.choice(pc)
-                        out.append(mk('unknown-type', 'partial-cover', o, facts.site(o, ctx_name(ctx), arr),
+                        out.append(mk('unknown-type', 'partial-cover' + role, o, facts.site(o, ctx_name(ctx), arr),
                                       [rep_tok(f, m['ty_tok'], u['name'])],
                                       f'type of member {m["name"]}: {m["ty"]} -> {u["name"]} (covers only some of the versions {" ".join(fmt_v(v) for v in vs)})'))
     return out
@@ -1294,6 +1296,11 @@ def op_if_vars(tree, facts, rng):
                 out.append(mk('if-vars', f'{ck}-or', o, facts.site(o, ctx_name(ctx), f'{ck}-or'),
                               [decl, rep_tok(f, chain[k]['var_tok'], 'verif_other')],
                               f'`|| {chain[k]["var"]} {chain[k]["op"]} {chain[k]["enum"]}` tests the new variable verif_other (same type {d["ty"]}) instead', extra=ux))
+            if len(chain) == 1 and chain[0]['op'] in ('==', '&'):
+                c = chain[0]
+                out.append(mk('if-vars', f'{ck}-added-or{c["op"]}', o, facts.site(o, ctx_name(ctx), f'{ck}-added-or{c["op"]}'),
+                              [decl, ins_after(f, c['enum_tok'], f' || verif_other {c["op"]} {c["enum"]}')],
+                              f'`{c["var"]} {c["op"]} {c["enum"]}` gets a second condition `|| verif_other {c["op"]} {c["enum"]}` on the new variable verif_other (same type {d["ty"]})', extra=ux))
             if ck == 'else-if':
                 out.append(mk('if-vars', 'else-if-variable', o, facts.site(o, ctx_name(ctx), 'else-if-variable'),
                               [decl] + [rep_tok(f, c['var_tok'], 'verif_other') for c in chain],
@@ -1448,6 +1455,10 @@ def classify(tree, mut):
     except (SyntaxError, ValueError) as e:
         return False, [], f'does not parse: {e}'
     rules = {r for r, *_ in v}
+    if mut['rule'] == 'unknown-type':
+        # an if-variable whose type no longer resolves cannot have its conditions checked: a consequence of the unknown type,
+        # which is what has to be reported, not a second broken rule
+        rules.discard('other:if-variable-type-unresolved')
     if rules == {mut['rule']}:
         return True, v, None
     if not rules:
